@@ -10,7 +10,8 @@
     DrawState::draw_to_term; overflow-check panics of the debug build are panic sites too.
     [oracles] supplies everything that depends on string contents or on f32 arithmetic and is
     universally quantified; [mt_ok] / [oracles_ok] / [snap_ok] say only that a measured string
-    has at most as many columns as bytes. *)
+    has at most as many columns as bytes.  [builder_op o]: o is a method of ProgressStyle (not the
+    tab width change a ProgressBar makes); [tab_sane st]: the tab width is at most isize::MAX. *)
 From IndModel Require Import Base Template Builder.
 From IndProofs Require Import BuilderProofs.
 From Coq Require Import NArith List.
@@ -23,18 +24,39 @@ Open Scope N_scope.
     number, in particular 0..=65535) and every behaviour of the width tables / the FPU, no
     panic site of format_state is reached. *)
 Theorem C14_accepted_renders : forall (c : ctor) (ops : list bop) (st : style),
-  build c ops = BOk st ->
+  Forall builder_op ops -> build c ops = BOk st ->
   forall (sn : snapshot) (tw : N) (O : oracles),
     snap_ok sn -> oracles_ok O ->
     render_outcome st sn tw O = Ok tt.
 Proof. exact accepted_renders. Qed.
 Print Assumptions C14_accepted_renders.
 
+(** The same when the bar changes the tab width (ProgressBar::with_tab_width / set_tab_width,
+    modelled by OSetTab), for every tab width up to isize::MAX. *)
+Theorem C14_accepted_renders_any_tab : forall (c : ctor) (ops : list bop) (st : style),
+  build c ops = BOk st -> tab_sane st ->
+  forall (sn : snapshot) (tw : N) (O : oracles),
+    snap_ok sn -> oracles_ok O ->
+    render_outcome st sn tw O = Ok tt.
+Proof. exact accepted_renders_any_tab. Qed.
+Print Assumptions C14_accepted_renders_any_tab.
+
+(** REFUTED for tab widths above isize::MAX (class "tab-width-huge", candidate finding): with
+    ProgressBar::with_tab_width(usize::MAX) a template that holds a with_key key panics in the
+    draw (`" ".repeat(tab_width)`, capacity overflow) although no builder call panicked.
+    Reproduced on the implementation (docs/C14.md). *)
+Theorem C14_huge_tab_refuted :
+  exists st, build (CWithTemplate huge_tab_template) huge_tab_ops = BOk st
+    /\ StyleOK st /\ snap_ok plain_snap /\ oracles_ok plain_oracles
+    /\ render_outcome st plain_snap 80 plain_oracles = Panic SITE_TAB_REPEAT.
+Proof. exact huge_tab_refuted. Qed.
+Print Assumptions C14_huge_tab_refuted.
+
 (** ... and the whole draw of one frame (format_state, then draw_to_term on a terminal of any
     u16 width and height, zero included, top or bottom aligned, after any previous frame
     height n <= usize::MAX - 65536) reaches no panic site either. *)
 Theorem C14_accepted_draws : forall (c : ctor) (ops : list bop) (st : style),
-  build c ops = BOk st ->
+  build c ops = BOk st -> tab_sane st ->
   forall (sn : snapshot) (tw th n : N) (bottom : bool) (O : oracles),
     snap_ok sn -> oracles_ok O ->
     tw < U16 -> th < U16 -> n + U16 <= USIZE_MAX ->
@@ -52,7 +74,7 @@ Print Assumptions C14_invariant.
 
 (** The invariant alone (however the style was obtained) implies every guard. *)
 Theorem C14_invariant_renders : forall (st : style) (sn : snapshot) (tw : N) (O : oracles),
-  StyleOK st -> snap_ok sn -> oracles_ok O -> render_outcome st sn tw O = Ok tt.
+  StyleOK st -> tab_sane st -> snap_ok sn -> oracles_ok O -> render_outcome st sn tw O = Ok tt.
 Proof. exact render_ok. Qed.
 Print Assumptions C14_invariant_renders.
 
@@ -124,16 +146,17 @@ Definition ex_ops : list bop :=
    OProgressChars [mkcl [26085] 2; mkcl [26412] 2; mkcl [35486] 2];    (* three CJK clusters, 2 columns each *)
    OWithKey [120]; OTemplate ex_template; OSetTab 4].
 Definition ex_oracles : oracles :=
-  mkor (fun i => mkmt (N.of_nat i + 7) 5) (fun c => mkfbar (c / 3) true 2) (fun _ => 9) true [0; 81; 7].
-Definition ex_snap : snapshot := mksnap 18446744073709551615 None 18446744073709551615 false (mkmt 9 6) (mkmt 0 0).
+  mkor (fun i => mkmt (N.of_nat i + 7) 5) (fun _ => true) (fun c => mkfbar (c / 3) true 2) (fun _ => 9) true [0; 81; 7].
+Definition ex_snap : snapshot :=
+  mksnap 18446744073709551615 None 18446744073709551615 false (mkmt 9 6) (mkmt 0 0) true false.
 
 Example C14_ex_reachable :
   exists st, build CDefaultSpinner ex_ops = BOk st /\ nlen (st_parts st) = 9 /\ st_cw st = 2
-             /\ snap_ok ex_snap /\ oracles_ok ex_oracles
+             /\ tab_sane st /\ snap_ok ex_snap /\ oracles_ok ex_oracles
              /\ draw_outcome st ex_snap 80 24 6 true ex_oracles = Ok 6.
 Proof.
   eexists. split; [vm_compute; reflexivity|].
-  split; [reflexivity|]. split; [reflexivity|].
+  split; [reflexivity|]. split; [reflexivity|]. split; [vm_compute; discriminate|].
   split; [split; vm_compute; congruence|].
   split; [|vm_compute; reflexivity].
   intros i. unfold mt_ok, ex_oracles; cbn. lia.
